@@ -76,6 +76,8 @@ InUrlAlphabet(c) == (c >= 65 /\ c <= 90) \/ (c >= 97 /\ c <= 122) \/ (c >= 48 /\
 Def(fn, in) ==
    CASE fn \in {"hexenc_c", "hexenc_ptr", "hexenc_string", "hexenc_buffer"} -> HexEnc(in)
      [] fn = "hexdec_c" -> HexDec(in)
+     \* decoded over its own text: the decoded bytes in front, the untouched second half of the text behind them
+     [] fn = "hexdec_c_inplace" -> HexDec(in) \o SubSeq(in, Len(in) \div 2 + 1, Len(in))
      [] fn \in {"b64enc_ptr", "b64enc_string"} -> IF Big(in) THEN EncIdx(FALSE, in) ELSE B64Enc(in)
      [] fn = "b64dec" -> IF Big(in) THEN DecIdx(in) ELSE B64Dec(in)
      [] fn \in {"b64urlenc_ptr", "b64urlenc_string"} -> IF Big(in) THEN EncIdx(TRUE, in) ELSE B64UrlEnc(in)
